@@ -197,6 +197,8 @@ def run(chk):
     # ---- R: regular-expression results
     chk.rule('C15-R', 'the result of re.match / re.search is dereferenced (.group / .groups ...) only where it was found to be a match')
     codelemmas.match_dereference(chk, c, 'C15-R')
+    chk.rule('C15-Z', 'a name that is compared case-normalised is not measured in its raw form (upper-casing can change the length)')
+    codelemmas.case_measure(chk, c, 'C15-Z')
 
     # ---- X: constant-index subscripts of the value text on the datatype path
     chk.rule('C15-X', 'on the datatype path (utils, factories, the date/time constructors) every constant-index subscript of '
